@@ -50,6 +50,8 @@ class RunCtx:
         self.specs = Specs()
         self.col = Collector()
         self.V = Verifier(self.repo, self.specs, self.col)
+        from . import models
+        self.V.hooks.append(models.install)
         self.bounded = []       # bounded stand-in results: dicts
         self.assumptions = list(ASSUMPTIONS_COMMON)
         self.violations = []    # (text, replay path)
